@@ -427,3 +427,53 @@ def statements(fn_node):
                 walk(h.body)
     walk(fn_node.body)
     return out
+
+
+class PathLimit(Exception):
+    pass
+
+
+def all_paths(fn_node, limit=2000):
+    """every acyclic path through the function's if/elif/else structure (loops, try and with are walked as
+    straight-line bodies: for/while bodies are taken zero or one time) as (decisions, statements, exit) where
+    decisions = [(test node, polarity)], statements = simple statements executed in order, exit = Return/Raise node
+    or None for the fall-through."""
+    out = []
+
+    def walk(stmts, decs, done, cont):
+        """cont(decs, done) continues after the block falls through."""
+        if len(out) > limit:
+            raise PathLimit()
+        if not stmts:
+            cont(decs, done)
+            return
+        st, rest = stmts[0], stmts[1:]
+        if isinstance(st, (ast.Return, ast.Raise)):
+            out.append((decs, done + [st], st))
+            return
+        if is_noreturn_call(st):
+            out.append((decs, done + [st], st))
+            return
+        if isinstance(st, ast.If):
+            walk(st.body, decs + [(st.test, True)], done, lambda d, s: walk(rest, d, s, cont))
+            walk(st.orelse, decs + [(st.test, False)], done, lambda d, s: walk(rest, d, s, cont))
+            return
+        if isinstance(st, (ast.For, ast.AsyncFor, ast.While)):
+            walk(rest, decs, done + [st], cont)                                           # zero iteration
+            walk(st.body, decs, done + [st], lambda d, s: walk(rest, d, s, cont))         # one iteration
+            return
+        if isinstance(st, (ast.With, ast.AsyncWith)):
+            walk(st.body, decs, done + [st], lambda d, s: walk(rest, d, s, cont))
+            return
+        if isinstance(st, ast.Try):
+            walk(st.body + st.orelse + st.finalbody, decs, done, lambda d, s: walk(rest, d, s, cont))
+            for h in st.handlers:
+                walk(h.body + st.finalbody, decs, done + [h], lambda d, s: walk(rest, d, s, cont))
+            return
+        if isinstance(st, (ast.Continue, ast.Break)):
+            cont(decs, done + [st])
+            return
+        walk(rest, decs, done + [st], cont)
+
+    walk(list(fn_node.body), [], [], lambda d, s: out.append((d, s, None)))
+    return out
